@@ -21,7 +21,7 @@ def Ev.isExecEnd (t : Nat) : Ev → Bool
   | _ => false
 
 /-- An `execute_start` or `execute_end` event. -/
-def Ev.isExec : Ev → Bool
+def Ev.isExecEv : Ev → Bool
   | .executeStart _ => true
   | .executeEnd _ _ => true
   | _ => false
@@ -34,22 +34,22 @@ def countEnd (t : Nat) (evs : List Ev) : Nat := evs.countP (Ev.isExecEnd t)
 theorem countEnd_append (t : Nat) (a b : List Ev) :
     countEnd t (a ++ b) = countEnd t a + countEnd t b := by simp [countEnd, List.countP_append]
 
-theorem Ev.isExecStart_of_not_isExec {e : Ev} (h : e.isExec = false) (t : Nat) :
+theorem Ev.isExecStart_of_not_isExec {e : Ev} (h : e.isExecEv = false) (t : Nat) :
     e.isExecStart t = false := by
-  cases e <;> first | rfl | (simp [Ev.isExec] at h)
+  cases e <;> first | rfl | (simp [Ev.isExecEv] at h)
 
-theorem Ev.isExecEnd_of_not_isExec {e : Ev} (h : e.isExec = false) (t : Nat) :
+theorem Ev.isExecEnd_of_not_isExec {e : Ev} (h : e.isExecEv = false) (t : Nat) :
     e.isExecEnd t = false := by
-  cases e <;> first | rfl | (simp [Ev.isExec] at h)
+  cases e <;> first | rfl | (simp [Ev.isExecEv] at h)
 
-theorem countExec_of_silent (t : Nat) {evs : List Ev} (h : ∀ e ∈ evs, Ev.isExec e = false) :
+theorem countExec_of_silent (t : Nat) {evs : List Ev} (h : ∀ e ∈ evs, Ev.isExecEv e = false) :
     countExec t evs = 0 := by
   unfold countExec
   rw [List.countP_eq_zero]
   intro e he
   rw [Ev.isExecStart_of_not_isExec (h e he)]; simp
 
-theorem countEnd_of_silent (t : Nat) {evs : List Ev} (h : ∀ e ∈ evs, Ev.isExec e = false) :
+theorem countEnd_of_silent (t : Nat) {evs : List Ev} (h : ∀ e ∈ evs, Ev.isExecEv e = false) :
     countEnd t evs = 0 := by
   unfold countEnd
   rw [List.countP_eq_zero]
@@ -119,7 +119,7 @@ theorem NoReentry.snoc_start {tr : List Ev} (h : NoReentry tr) {t : Nat}
   noReentry_snoc.mpr ⟨h, fun t' ht => by cases ht; exact hb⟩
 
 theorem NoReentry.append_silent {tr : List Ev} (h : NoReentry tr) {evs : List Ev}
-    (hs : ∀ e ∈ evs, Ev.isExec e = false) : NoReentry (tr ++ evs) := by
+    (hs : ∀ e ∈ evs, Ev.isExecEv e = false) : NoReentry (tr ++ evs) := by
   induction evs generalizing tr with
   | nil => simpa using h
   | cons e evs ih =>
@@ -127,7 +127,7 @@ theorem NoReentry.append_silent {tr : List Ev} (h : NoReentry tr) {evs : List Ev
       refine h.snoc_of_not_start ?_
       rintro t rfl
       have := hs (.executeStart t) (by simp)
-      simp [Ev.isExec] at this
+      simp [Ev.isExecEv] at this
     have := ih h1 fun x hx => hs x (by simp [hx])
     rwa [List.append_assoc] at this
 
@@ -161,7 +161,7 @@ theorem noReentry_of_check {tr : List Ev} (h : noReentryFrom [] tr = true) : NoR
 
 /-- The trace grew by events none of which is an `execute_start`/`execute_end`. -/
 def Silent (s s' : Sess) : Prop :=
-  ∃ evs, s'.trace = s.trace ++ evs ∧ ∀ e ∈ evs, Ev.isExec e = false
+  ∃ evs, s'.trace = s.trace ++ evs ∧ ∀ e ∈ evs, Ev.isExecEv e = false
 
 namespace Silent
 variable {s a b s' : Sess}
@@ -179,11 +179,11 @@ theorem trans (h₁ : Silent s a) (h₂ : Silent a b) : Silent s b := by
   · exact q1 e he
   · exact q2 e he
 
-theorem emit (s : Sess) {e : Ev} (he : e.isExec = false) : Silent s (s.emit e) :=
+theorem emit (s : Sess) {e : Ev} (he : e.isExecEv = false) : Silent s (s.emit e) :=
   ⟨[e], rfl, by simpa using he⟩
 
 theorem of_events {evs : List Ev} (h : s'.trace = s.trace ++ evs)
-    (hq : ∀ e ∈ evs, Ev.isExec e = false) : Silent s s' := ⟨evs, h, hq⟩
+    (hq : ∀ e ∈ evs, Ev.isExecEv e = false) : Silent s s' := ⟨evs, h, hq⟩
 
 theorem countExec (h : Silent s s') (t : Nat) : countExec t s'.trace = countExec t s.trace := by
   obtain ⟨evs, ht, hq⟩ := h
@@ -214,7 +214,7 @@ variable (sem : Sem)
 
 theorem silent_of_rwpost {α : Type} {c : Nat} {s : Sess} {st : Ev} {en : Stamp → Ev}
     {x : Sess × Res (Except Int α)} (h : RWPost sem c s st en x)
-    (hst : st.isExec = false) (hen : ∀ stamp, (en stamp).isExec = false) : Silent s x.1 := by
+    (hst : st.isExecEv = false) (hen : ∀ stamp, (en stamp).isExecEv = false) : Silent s x.1 := by
   obtain ⟨s', res⟩ := x
   have h1 : s'.trace = s.trace → Silent s s' := Silent.of_eq
   have h2 : s'.trace = s.trace ++ [st] → Silent s s' := fun ht =>
@@ -271,7 +271,7 @@ theorem silent_readCheckEvents (s : Sess) (t c : Nat) (stamp : Stamp)
   (Silent.emit s rfl).trans (Silent.emit _ rfl)
 
 theorem silent_scheduleEv (s : Sess) (t tnode : Nat) : Silent s (scheduleEv s t tnode) :=
-  Silent.of_events (evs := [.scheduleTask t]) rfl (by simp [Ev.isExec])
+  Silent.of_events (evs := [.scheduleTask t]) rfl (by simp [Ev.isExecEv])
 
 theorem silent_trySchedule (s : Sess) (tnode : Nat) (d : Dep) :
     Silent s (trySchedule sem s tnode d) := by
@@ -321,7 +321,7 @@ theorem silent_reqSchedStep (out : Int) (s : Sess) (p : Nat × Dep) :
     split
     · exact (Silent.emit s rfl).trans (Silent.emit _ rfl)
     · exact ((Silent.emit s rfl).trans (Silent.emit _ rfl)).trans
-        (Silent.of_events (evs := [.scheduleTask _]) rfl (by simp [Ev.isExec]))
+        (Silent.of_events (evs := [.scheduleTask _]) rfl (by simp [Ev.isExecEv]))
   · exact Silent.refl s
 
 theorem silent_scheduleAfterExec (s : Sess) (node t : Nat) (out : Int) :
@@ -346,7 +346,7 @@ theorem silent_scheduleAfterExec (s : Sess) (node t : Nat) (out : Int) :
 theorem silent_scheduleAffectedBy (s : Sess) (r : Nat) : Silent s (scheduleAffectedBy sem s r) := by
   unfold scheduleAffectedBy; simp only []
   have q1 : Silent s ({ s.emit (.schedResStart r) with store := (s.store.getOrCreateResNode r).1 } : Sess) :=
-    Silent.of_events (evs := [.schedResStart r]) rfl (by simp [Ev.isExec])
+    Silent.of_events (evs := [.schedResStart r]) rfl (by simp [Ev.isExecEv])
   exact (q1.trans (Silent.foldl _ (fun s (p : Nat × Dep) => silent_trySchedule sem s p.1 p.2) _ _)).trans
     (Silent.emit _ rfl)
 
